@@ -253,6 +253,45 @@ let judge _id (c : cursor) (r : cursor) : bool * string =
     corr_lp "LinearProgramming<Model>" (lp_post m lpv) lpa lpq;
     corr_lp "LinearProgramming<UserModel>" (lp_post_g g lpv2) lpa2 lpq2;
     (s > 1 && a > 1, "solve")
+  | "via" ->
+    (* start ValueFunction with a wrong-size action vector: the answer must not depend on it *)
+    let h = next_int c in
+    let tol = next_q c in
+    let t = read_t3 c s a in let rw = read_t3 c s a in
+    let v0 = next_qs c in
+    let _nacts = next_int c in
+    let g = g_of_tables (nat_of_int s) (nat_of_int a) t rw gamma in
+    let m = dense_of_g g in
+    let b = read_vi_block r in
+    let site = "ValueIteration::operator()[start.actions.size!=S]" in
+    if List.length b.acts <> s then oracle_fail "vi_exact" site "returned action vector does not have one entry per state";
+    oracle_vi site reg m (ref_vi m v0) h tol v0 b;
+    corr_vi site reg (scale_of m b.v) (vi_run m (nat_of_int h) tol v0) b;
+    (h > 0 && s > 1, "via." ^ rs)
+  | "pi" ->
+    (* C only: with a horizon-limited evaluation PolicyIteration promises no residual bound *)
+    let h = next_int c in
+    let tol = next_q c in
+    let bps = next_int c in
+    let t = read_t3 c s a in let rw = read_t3 c s a in
+    let g = g_of_tables (nat_of_int s) (nat_of_int a) t rw gamma in
+    let m = dense_of_g g in
+    let q1 = read_qtable r in let q2 = read_qtable r in
+    let fuel = nat_of_int 300 in
+    let cmp site mo iq =
+      match mo with
+      | None -> disagree "pi_run.fuel" site "model out of fuel (300 evaluations) while the implementation returned"
+      | Some (iters, mq) ->
+        (* bit-exact only while every intermediate value fits a double: 12 bits + bps per sweep *)
+        let exact = reg = Dy && 12 + int_of_nat iters * h * bps <= 52 in
+        let reg' = if exact then Dy else Ge in
+        let sc = q_add (q_maxabs (flat mq)) (q_maxabs (flat m.r)) in
+        if not (list_eq reg' sc (flat mq) (flat iq)) || List.length mq <> List.length iq then
+          disagree "pi_run.qfunction" site ("impl " ^ str_qs (flat iq) ^ " model " ^ str_qs (flat mq));
+        int_of_nat iters in
+    let i1 = cmp "PolicyIteration<Model>" (pi_run m (nat_of_int h) tol fuel) q1 in
+    let _ = cmp "PolicyIteration<UserModel>" (pi_run_g g (nat_of_int h) tol fuel) q2 in
+    (i1 > 1 && s > 1, "pi." ^ rs)
   | "learn" ->
     let h = next_int c in
     let tol = next_q c in
